@@ -769,7 +769,12 @@ impl RefServer {
                 self.notes.extend(ok.notes.clone());
                 self.exported_key = Some(ok.exported_session_key);
                 let mut c2s = SealCtx::new(&ok.exported_session_key, true);
-                let s2c = SealCtx::new(&ok.exported_session_key, false);
+                let mut s2c = SealCtx::new(&ok.exported_session_key, false);
+                // a server whose CHALLENGE did not negotiate SEAL signs without encrypting, and expects the same
+                if self.p.ntlm.flags & vref::ntlm::F_SEAL == 0 {
+                    c2s.confidential = false;
+                    s2c.confidential = false;
+                }
                 let seen_key = match c2s.unwrap(&pka) {
                     Ok(k) => k,
                     Err(e) => return self.fail(format!("client pubKeyAuth does not unseal: {}", e)),
